@@ -9,7 +9,7 @@ RULE = ("for every text parameter of every function: all lengths around each bou
         "start,length >= 0 in and out of the PAN; byte parameters of every length 0..40; the expected verdict comes from the documented domain written "
         "independently in this file; distinct = distinct driver lines")
 A = psec.mac.Algorithm
-HOSTILE = ["٣", "３", "²", "१", "\U0001d7d9", "+", "-", "_", " ", "\t", "\n", "\x00", "a", "F", "g", "é", "\ud800", ".", "/", ":", "①"]
+HOSTILE = ["٣", "３", "²", "१", "\U0001d7d9", "+", "-", "_", " ", "\t", "\n", "\x00", "a", "F", "g", "é", "\ud800", ".", "/", ":", "①", "{", "}", "%"]
 
 
 def asciidigits(s):
